@@ -40,7 +40,9 @@ CONFIGS = [
     # (5 keys: the smallest universe in which retain can leave tombstones behind without rehashing)
     ("wrap", 1, {"quick": {"HT_KEYS": 6, "HT_MAXOPS": 0}, "thorough": {"HT_KEYS": 7, "HT_MAXOPS": 0}},
      ["+wrap", "+lastslot", "reuse", "+tomb", "totomb", "+t2f", "+tk", "+rf", "+rt", r"^keepall\+tk$",
-      "+last0tomb", "+last0occ", "+last0free", "+last0tomb+wrapkept", "+last0occ+wrapkept"]),
+      "+last0tomb", "+last0occ", "+last0free", "+last0tomb+wrapkept", "+last0occ+wrapkept",
+      # ... and the table is not rehashed afterwards (only then the slots written by retain stay)
+      r"^drop(\+\w+)*\+last0tomb\+wrapkept$", r"^drop(\+\w+)*\+last0occ\+wrapkept$"]),
     # MIN_CAP scaled to 4: growth 4 -> 8 -> 16 and shrinking with few keys
     ("small", 1, {"quick": {"HT_KEYS": 5, "HT_MAXOPS": 0}, "thorough": {"HT_KEYS": 7, "HT_MAXOPS": 0}},
      ["+grow", "+shrink", "+shrink0", "+rehash", "reuse", "+wrap"]),
